@@ -8,7 +8,7 @@ driver for the relative addressing model (engine `resolvepath`, C13)
   `res <actor|~> <act inode|~|-> <ipath|-> F <n> (<frame name> <inode|->)^n R <framer name> <inode|->
        M <k> (C <n> (<frame name> <inode|->)^n <framer name> <inode|->)^k`      Act.resolvePath(ipath)
       `~` = None (unresolved actor / Act.inode is None), `-` = empty string
-      → `<path|-> S|N` (share / node) | `ERR index` | `ERR nomain` | `ERR noactor`
+      → `<path|-> S|N` (share / node) | `ERR incomplete` | `ERR nomain` | `ERR noactor`
 -/
 namespace Ioflo.Drv.ResolvePath
 open Ioflo.Proto Ioflo.ResolvePath
@@ -62,7 +62,7 @@ def mainP : P RawMain := fun ts => do
   return (⟨ch, fn, fi⟩, r)
 
 def showErr : Err → String
-  | .indexError => "ERR index"
+  | .incomplete => "ERR incomplete"
   | .noMain => "ERR nomain"
   | .noActor => "ERR noactor"
 
